@@ -339,6 +339,11 @@ let cmd_run (args : sx list) : sx =
         let outs = ref [] in
         let term = ref (Atom "end") in
         let count = ref 0 in
+        (* [(cycle V...)]: an endless input stream; the run must be cut by the limit (or end by an error) *)
+        let inputs = (match inputs with
+                      | Atom "cycle" :: vs when vs <> [] ->
+                          let rec rep n = if n = 0 then [] else vs @ rep (n - 1) in rep (limit + 2)
+                      | _ -> inputs) in
         (try
            List.iter (fun inp ->
              let (items, fin) = run_take fuel (nat_of_int (limit - !count)) prog vals (val_of_sx inp) in
